@@ -59,6 +59,10 @@ def jdump(x):
 
 def first_diff(a, b, path=()):
     """First structural difference between two JSON-like values (type- and order-sensitive)."""
+    if type(a) is int and type(b) is float and abs(a) < 2 ** 1000 and float(a) == b:
+        # a Float position (only there does the reference hold a float) answered with the Python int whose nearest double
+        # is that float: the same JSON number; no statement fixes the host-language representation of a Float result
+        return None
     if type(a) is not type(b):
         return path, a, b
     if isinstance(a, dict):
@@ -123,6 +127,23 @@ def check_envelope(resp):
     if "errors" in resp and (not isinstance(resp["errors"], list) or not resp["errors"]):
         return "errors present but empty or not a list"
     return None
+
+
+def refused(resp, world=None):
+    """A request answered as a whole without running anything (syntax, validation, operation selection, variables, or a
+    failure that nulls the root before any resolver ran), decided on OBSERVATIONS only: data null, a non-empty error list
+    and -- when a world is given -- no resolver or directive hook was called.  Returns None or (tag-if-any, first message);
+    neither the wording nor the extensions of an error decide.  Callers that must tell a refusal from a legitimate
+    'data: null' compare with the reference's data."""
+    if not isinstance(resp, dict) or resp.get("data") is not None:
+        return None
+    errs = resp.get("errors") or []
+    if not errs or not all(isinstance(e, dict) for e in errs):
+        return None
+    if world is not None and (world.calls or world.dir_calls):
+        return None
+    ext = errs[0].get("extensions")
+    return ((ext.get("tag") if isinstance(ext, dict) else None), errs[0].get("message"))
 
 
 def data_at(data, path):
